@@ -10,7 +10,7 @@ CONSTANTS
   Policy <- PolGreedy
   NSteps = 3
   Dt = 3
-  OutEvery = 2
+  OutDt = 6
   Events <- AddRemove
   WithEstimation = TRUE
   WithSerendipity = FALSE
@@ -20,6 +20,7 @@ CONSTANTS
   KeepMissedAcrossSteps = FALSE
   PriorityToAllEngines = FALSE
   PruneKeepsEqual = FALSE
+  PartialCommit = FALSE
 INVARIANT OneRecordPerTasking
 INVARIANT NoRecordWithoutTasking
 INVARIANT PointingReflectsTasking
